@@ -108,6 +108,9 @@ NextSamples == \E n \in 1..3 : \E asg \in [1..n -> 1..3], grouped \in BOOLEAN :
                                        [state |-> << SStates[s] >>, ids |-> SelectSeq(SubSeq(ids, 1, n), LAMBDA x : asg[CHOOSE i \in 1..n : ids[i] = x] = s)] ]
                    ELSE [ i \in 1..n |-> [state |-> << SStates[asg[i]] >>, ids |-> << ids[i] >>] ]
     IN vec' = Ev("evaluate_samples", [inst |-> SInst, samples |-> entries])
+\* ---- growth: Samples::add_sample / transpose -------------------------------------------------------------------------------
+NextSamplesHelpers == \E n \in 1..3 : \E asg \in [1..n -> 1..3] :
+    vec' = Ev("samples_helpers", [adds |-> [ i \in 1..n |-> << <<4, 0, 9>>[i], SStates[asg[i]] >> ]])
 \* ---- C15: all small sample sets in both layouts -------------------------------------------------------------------------
 Pairs(f) == [ k \in DOMAIN SortSeq(SetToSeq(DOMAIN f), LAMBDA x, y : x < y) |-> LET s == SortSeq(SetToSeq(DOMAIN f), LAMBDA x, y : x < y)[k] IN <<s, f[s]>> ]
 NextBest == \E S \in (SUBSET {0, 3, 7}) \ {{}} : \E objs \in [S -> {R(0), R(1)}], rel \in [S -> BOOLEAN], sense \in {"min", "max"}, legacy \in BOOLEAN, bytes \in BOOLEAN :
@@ -187,7 +190,7 @@ Init == vec = <<>> /\ phase = 0
 DoEvaluate == Step(NextTol \/ NextTolExact \/ NextIrrelevant \/ NextBinaryBound \/ NextDeps)
 DoLogEncode == Step(NextLogEncode)
 DoHistories == Step(NextHistories)
-DoSamples == Step(NextSamples \/ NextTolExact)
+DoSamples == Step(NextSamples \/ NextTolExact \/ NextSamplesHelpers)
 DoBest == Step(NextBest)
 DoQubo == Step(NextQubo)
 DoSlack == Step(NextSlack \/ NextSlackRejects)
